@@ -172,9 +172,13 @@ class Ctx:
     def finish(self, level, acc: Acc, coverage: dict, assumptions=(), vacuity=()):
         """Classify violations, write replays + evidence, print lines, set exit code.
         `vacuity`: iterable of (bool ok, message) guards."""
-        for ok, msg in vacuity:
-            if not ok:
-                raise HarnessError("vacuity guard failed: " + msg)
+        failed = [msg for ok, msg in vacuity if not ok]
+        if failed and not acc.viol:
+            raise HarnessError("vacuity guard failed: " + failed[0])
+        if failed:
+            # violations were recorded: a diversity guard that fails as well is most likely a consequence of the
+            # same defect (e.g. every request of one kind now fails) - report the violations, mention the guard
+            print(f"note: vacuity guard(s) not met on a run that reports violations: {failed[:3]}")
         known = _load_known()
         groups = collections.OrderedDict()
         for r in acc.viol:
